@@ -429,17 +429,19 @@ func GenRichDecls(r *core.Rand, v *Vocab, o RichOpts) (D, map[string]int) {
 	}
 	// a declaration that fails on some records, used once as somebody's xpath_dynamic (where a failure is not a record failure) and once,
 	// textually identical, as a regular field evaluated from the same cursor (where it is)
-	if r.Chance(1, 4) {
+	if r.Chance(1, 5) {
 		var d D
-		switch k := r.Intn(4); {
+		switch k := r.Intn(10); {
 		case k == 0 && len(v.Multi) > 0:
-			d = D{"xpath": v.Multi[r.Intn(len(v.Multi))]}
-		case k == 1 && o.FailFn:
-			d = D{"custom_func": D{"name": "vf_fail", "args": []interface{}{D{"xpath": v.Single[r.Intn(len(v.Single))]}}}}
-		case k == 2:
-			d = D{"external": "no_such_external"}
+			d = D{"xpath": v.Multi[r.Intn(len(v.Multi))]} // several matches (on most records)
+		case k <= 3 && o.FailFn:
+			d = D{"custom_func": D{"name": "vf_fail", "args": []interface{}{D{"xpath": v.Single[r.Intn(len(v.Single))]}}}} // fails on marked records only
+		case k == 4:
+			d = D{"external": "no_such_external"} // fails on every record
+		case k == 5 || len(v.Numeric) == 0:
+			d = D{"xpath": v.Single[r.Intn(len(v.Single))], "type": r.Pick("int", "float", "boolean")} // fails on most records
 		default:
-			d = D{"xpath": v.Single[r.Intn(len(v.Single))], "type": r.Pick("int", "float", "boolean")}
+			d = D{"xpath": v.Numeric[r.Intn(len(v.Numeric))], "type": r.Pick("int", "int", "float")} // fails on the records whose number is not one
 		}
 		b, _ := json.Marshal(d)
 		var twin D
